@@ -522,6 +522,11 @@ func vfsContent(p string) (value, bool) {
 func init() {
 	intrinsics["verifFileWrite"] = func(fr *frame, a []value) value {
 		p := vfs.abs(argString(a[0]))
+		for d := filepath.Dir(p); d != "/" && d != "."; d = filepath.Dir(d) {
+			if _, ok := vfs.files[d]; !ok {
+				vfs.files[d] = &vnode{isDir: true, mode: 0o755}
+			}
+		}
 		vfs.files[p] = &vnode{data: append([]value{}, strBytes(a[1])...), mode: 0o644}
 		return nil
 	}
@@ -537,7 +542,16 @@ func init() {
 		return c
 	}
 	intrinsics["verifFileRemove"] = func(fr *frame, a []value) value {
-		delete(vfs.files, vfs.abs(argString(a[0])))
+		p := vfs.abs(argString(a[0]))
+		if n, ok := vfs.files[p]; ok && n.isDir {
+			// removing a directory removes what it holds
+			for q := range vfs.files {
+				if strings.HasPrefix(q, p+"/") {
+					delete(vfs.files, q)
+				}
+			}
+		}
+		delete(vfs.files, p)
 		return nil
 	}
 	intrinsics["verifFileList"] = func(fr *frame, a []value) value {
